@@ -96,6 +96,16 @@ def short(s, n=700):
     return s if len(s) <= n else s[:n // 2] + " ...[%d chars]... " % (len(s) - n) + s[-n // 2:]
 
 
+def _cmd_string(x):
+    """evidence schema wants a string"""
+    if isinstance(x, str):
+        return x
+    if isinstance(x, dict):
+        ex = x.get("examples") or []
+        return "%s coqc invocations, e.g. %s" % (x.get("count", len(ex)), "; ".join(ex[:2]))
+    return str(x)
+
+
 def run_and_report(rep, insts, calls, tag, params, jobs=NPROC, budget=None, describe=None, extra_cov=None,
                    rule="", assumptions=None, tb_kinds=("R", "Z")):
     """certify `insts`, turn certified failures into violations (with the .v text as replay), fill rep.coverage.
@@ -164,7 +174,8 @@ def run_and_report(rep, insts, calls, tag, params, jobs=NPROC, budget=None, desc
                    "vm_compute; reflexivity for Z goals",
         "i_prec_range": [min([V[i]["prec"] for i in V if by_id[i].kind != "Z"] or [0]),
                          max([V[i]["prec"] for i in V if by_id[i].kind != "Z"] or [0])],
-        "checker_cmd": cert.summarize_cmds(res["cmds"]),
+        "checker_cmd": _cmd_string(cert.summarize_cmds(res["cmds"])),
+        "checker_cmd_detail": cert.summarize_cmds(res["cmds"]),
         "trusted_base": tb,
         "cert_dir": res["dir"], "cert_wall_s": res["wall_s"],
         "slowest": [{"id": i, "secs": V[i]["secs"], "i_prec": V[i]["prec"], "step": V[i]["step"]}
